@@ -9,4 +9,5 @@ INVARIANT Agree
 PROPERTY WB_Identity
 PROPERTY WB_ItemsNeverRefused
 PROPERTY SetPortsExact
+PROPERTY SetLineFresh
 CHECK_DEADLOCK FALSE
